@@ -78,6 +78,9 @@ int sim_fiber_dead(void* f);    /* control block freed */
 int sim_fiber_switch_ins(void* f);
 int sim_fiber_wakeups(void* f);   /* times f was made runnable by a wake-up (not creation, not its own yield) */
 void* sim_current_fiber(void);
+int sim_fiber_lib_state(void* f); /* libfiber's fiber_t.state */
+int sim_fiber_is_saved(void* f);  /* ghost: switched out, context saved */
+void* sim_old_fiber(void); /* inside sim_hook_context_switch: the fiber being switched away from */
 uint64_t sim_fiber_switches(void);
 uint64_t sim_migrations(void);
 void sim_check_quiescent(void); /* ghost invariants at quiescence (C02 idle clause, C01/C04 ledger) */
